@@ -9,10 +9,12 @@ package main
 import (
 	"fmt"
 	"go/ast"
+	"go/parser"
 	"go/token"
 	"go/types"
 	"regexp"
 	"sort"
+	"strconv"
 	"strings"
 )
 
@@ -91,7 +93,7 @@ func callNamed(info *types.Info, e ast.Expr, name string) *ast.CallExpr {
 	if !ok {
 		return nil
 	}
-	if f := calleeOf(info, call); f != nil && fname(f) == name {
+	if f := calleeOf(info, call); f != nil && (fname(f) == name || (name == "Sort" && isSortFuncName(f))) {
 		return call
 	}
 	return nil
@@ -437,6 +439,60 @@ func constFold(fn *Func, e ast.Expr) ast.Expr {
 	return fold(e)
 }
 
+type cmpCanon struct {
+	text string
+	neg  bool
+}
+
+// intCmpCanon: canonical spellings "A >= B + d" / "A == B + d" (both orientations) of an
+// integer comparison, with neg = the comparison is the negation of that spelling.
+func intCmpCanon(be *ast.BinaryExpr) []cmpCanon {
+	split := func(e ast.Expr) (ast.Expr, int64, bool) {
+		e = ast.Unparen(e)
+		if b, ok := e.(*ast.BinaryExpr); ok && (b.Op == token.ADD || b.Op == token.SUB) {
+			if lit, ok := ast.Unparen(b.Y).(*ast.BasicLit); ok && lit.Kind == token.INT {
+				if v, err := strconv.ParseInt(lit.Value, 0, 64); err == nil {
+					if b.Op == token.SUB {
+						v = -v
+					}
+					return b.X, v, true
+				}
+			}
+		}
+		return e, 0, true
+	}
+	ea, ka, _ := split(be.X)
+	eb, kb, _ := split(be.Y)
+	A, B := cmpText(ea), cmpText(eb)
+	d := kb - ka // ea OP eb + d
+	mk := func(l, r string, d int64, op string) string {
+		switch {
+		case d == 0:
+			return l + " " + op + " " + r
+		case d > 0:
+			return fmt.Sprintf("%s %s %s + %d", l, op, r, d)
+		default:
+			return fmt.Sprintf("%s %s %s - %d", l, op, r, -d)
+		}
+	}
+	var out []cmpCanon
+	switch be.Op {
+	case token.GEQ: // A >= B+d ; also B <= A-d  i.e. !(B >= A - d + 1)
+		out = append(out, cmpCanon{mk(A, B, d, ">="), false}, cmpCanon{mk(B, A, -d+1, ">="), true})
+	case token.GTR: // A >= B+d+1 ; B < A-d i.e. !(B >= A-d)
+		out = append(out, cmpCanon{mk(A, B, d+1, ">="), false}, cmpCanon{mk(B, A, -d, ">="), true})
+	case token.LSS: // !(A >= B+d) ; B > A-d i.e. B >= A-d+1
+		out = append(out, cmpCanon{mk(A, B, d, ">="), true}, cmpCanon{mk(B, A, -d+1, ">="), false})
+	case token.LEQ: // !(A >= B+d+1) ; B >= A-d
+		out = append(out, cmpCanon{mk(A, B, d+1, ">="), true}, cmpCanon{mk(B, A, -d, ">="), false})
+	case token.EQL:
+		out = append(out, cmpCanon{mk(A, B, d, "=="), false}, cmpCanon{mk(B, A, -d, "=="), false})
+	case token.NEQ:
+		out = append(out, cmpCanon{mk(A, B, d, "=="), true}, cmpCanon{mk(B, A, -d, "=="), true})
+	}
+	return out
+}
+
 // cmpText: normalised text of a comparison (package qualifiers dropped).
 func cmpText(e ast.Expr) string {
 	s := exprStr(e)
@@ -508,6 +564,22 @@ func atomMatches(fn *Func, a *Atom, g guard) bool {
 			for _, alt := range inlinedVariants(fn, be0) {
 				if sameText(fn, cmpText(alt), g.name) {
 					return a.Pol == g.pol
+				}
+			}
+			// integer comparisons up to ±1 rewriting and orientation: i+1 > n ≡ i >= n ≡ !(i < n) ≡ n <= i
+			if t := info.TypeOf(be0.X); t != nil {
+				if b, ok := t.Underlying().(*types.Basic); ok && b.Info()&types.IsInteger != 0 {
+					if rowE, err := parser.ParseExpr(g.name); err == nil {
+						if rb, ok := ast.Unparen(rowE).(*ast.BinaryExpr); ok {
+							for _, cc := range intCmpCanon(be0) {
+								for _, rc := range intCmpCanon(rb) {
+									if sameText(fn, cc.text, rc.text) {
+										return (a.Pol != cc.neg) == (g.pol != rc.neg)
+									}
+								}
+							}
+						}
+					}
 				}
 			}
 			// len(x) == 0  ≡  !(len(x) > 0);  len(x) != 0  ≡  len(x) > 0
@@ -707,7 +779,7 @@ func guardHolds(p5c *p5, fn *Func, at ast.Node, g guard) bool {
 		found := false
 		ast.Inspect(fn.Body, func(n ast.Node) bool {
 			if call, ok := n.(*ast.CallExpr); ok {
-				if f := calleeOf(fn.Info(), call); f != nil && fname(f) == g.name && fn.Dominates(call, at) && call != at {
+				if f := calleeOf(fn.Info(), call); f != nil && (fname(f) == g.name || (g.name == "Sort" && isSortFuncName(f))) && fn.Dominates(call, at) && call != at {
 					if g.rhs == "" {
 						found = true
 					} else {
@@ -760,6 +832,19 @@ func guardHolds(p5c *p5, fn *Func, at ast.Node, g guard) bool {
 		return true
 	}
 	return fn.HoldsOnAllPaths(at, func(a *Atom) bool { return atomMatches(fn, a, g) })
+}
+
+// isSortFuncName: any of the standard library's sorting entry points (a row that asks for
+// "sorted" does not care which one).
+func isSortFuncName(f *types.Func) bool {
+	if f.Pkg() == nil || (f.Pkg().Path() != "sort" && f.Pkg().Path() != "slices") {
+		return false
+	}
+	switch f.Name() {
+	case "Sort", "Stable", "Slice", "SliceStable", "Strings", "Ints", "SortFunc", "SortStableFunc":
+		return true
+	}
+	return false
 }
 
 // ---- rows ---------------------------------------------------------------------------------
@@ -818,6 +903,14 @@ func safeAtom(fn *Func, a *Atom) bool {
 			if sel, ok := ast.Unparen(other).(*ast.SelectorExpr); ok {
 				if tv := info.TypeOf(sel); tv != nil && roleOfType(tv) == roleCONS {
 					return false
+				}
+			}
+			// … and so does a nil test of a local that holds a schema looked up so far
+			if id, ok := ast.Unparen(other).(*ast.Ident); ok {
+				if v, isVar := info.ObjectOf(id).(*types.Var); isVar && !rootOf(fn).isParam(v) && !fn.isParam(v) && len(fn.Assignments(v)) >= 2 {
+					if tv := info.TypeOf(id); tv != nil && roleOfType(tv) == roleCONS {
+						return false
+					}
 				}
 			}
 			return true
